@@ -294,6 +294,13 @@ def body_pixels(ctx, case):
     b_in = base + shift                 # non-negative coordinates, band inside the canvas
     ref = crop_image(ctx, eng, canvas, b_in.copy(), list(case["heights"]))
     ctx.check(ref.shape[0] == case["line_height"] and ref.shape[1] == coords.shape[1], "crop_fell_back_to_blank", lambda: "shape %r; " % (ref.shape,) + desc())
+    # a crop stays what it was when the same cropper crops the next line (all lines of a page are cropped before any is
+    # recognised): the same line on the inverted page has a crop of identical shape
+    kept = ref.copy()
+    other = crop_image(ctx, eng, 255 - canvas, b_in.copy(), list(case["heights"]))
+    ctx.check(np.array_equal(ref, kept), "earlier_crop_changed_by_a_later_crop",
+              lambda: "the crop differs in %d pixels after the same cropper cropped another line of the same shape; " % int((ref != kept).any(axis=2).sum()) + desc())
+    ctx.check(other.shape == kept.shape and int(np.abs(other.astype(int) + kept.astype(int) - 255).max()) <= 2, "crop_of_inverted_page_not_inverted_crop", desc)
     # (a) joint shift by an integer margin inside a zero border
     m = case["margin"]
     my = m + 5 + (m % 3)
@@ -402,11 +409,20 @@ def body_degenerate(ctx, case):
     from pero_ocr.document_ocr.page_parser import LineCropper
     import contextlib, io
     desc = lambda: "case=%r" % (case,)
-    img = np.full((300, 300, 3), 127, dtype=np.uint8)
+    yy, xx = np.mgrid[0:300, 0:300]
+    img = np.stack([(xx * 0.7 + yy * 0.3) % 256, (xx * 0.2 + yy * 0.9) % 256, 64 + (xx + 2 * yy) % 128], axis=2).astype(np.uint8)
     eng = EngineLineCropper(line_height=case["line_height"], poly=case["poly"], scale=case["scale"])
     base = np.asarray(case["baseline"], dtype=np.float64)
+    good_base = np.asarray([[10.0, 50.0], [70.0, 62.0], [135.0, 66.0], [200.0, 55.0]])       # a curved line
+    good_heights = [20.0, 8.0]
     with contextlib.redirect_stdout(io.StringIO()):
         crop = ctx.must("crop_raises_on_degenerate_line", eng.crop, img, base.copy(), list(case["heights"]))
+        # the cropper that has just handled the degenerate line crops a good, curved line exactly like a cropper that has not
+        after = ctx.must("crop_raises", eng.crop, img, good_base.copy(), list(good_heights))
+        fresh = ctx.must("crop_raises", EngineLineCropper(line_height=case["line_height"], poly=case["poly"], scale=case["scale"]).crop,
+                         img, good_base.copy(), list(good_heights))
+    ctx.check(after.shape == fresh.shape and np.array_equal(after, fresh), "crop_after_a_degenerate_line_differs_from_a_fresh_croppers",
+              lambda: "shapes %r / %r, %s; " % (after.shape, fresh.shape, "pixels differ" if after.shape == fresh.shape else "") + desc())
     ctx.check(isinstance(crop, np.ndarray) and crop.ndim == 3 and crop.shape[0] == case["line_height"], "degenerate_crop_wrong_height",
               lambda: "shape %r; " % (getattr(crop, "shape", None),) + desc())
     ctx.check(crop.shape[2] == 3 and crop.dtype == np.uint8 and crop.shape[1] >= 1, "degenerate_crop_not_an_image_like_the_page",
@@ -417,13 +433,14 @@ def body_degenerate(ctx, case):
     pl = PageLayout(id="p", page_size=(300, 300))
     reg = RegionLayout("r", np.asarray([[0, 0], [300, 0], [300, 300], [0, 300]]))
     reg.lines = [TextLine(id="l0", baseline=base.copy(), polygon=np.zeros((4, 2)), heights=list(case["heights"])),
-                 TextLine(id="l1", baseline=np.asarray([[10.0, 50.0], [200.0, 55.0]]), polygon=np.zeros((4, 2)), heights=[20.0, 8.0])]
+                 TextLine(id="l1", baseline=good_base.copy(), polygon=np.zeros((4, 2)), heights=list(good_heights))]
     pl.regions = [reg]
     with contextlib.redirect_stdout(io.StringIO()):
         ctx.must("line_cropper_raises_on_degenerate_line", lc.process_page, img, pl)
     for l in reg.lines:
         ctx.check(l.crop is not None and l.crop.shape[0] == case["line_height"], "line_cropper_wrong_height", lambda: "line %s shape %r; " % (l.id, getattr(l.crop, "shape", None)) + desc())
     ctx.check(reg.lines[1].crop.shape[1] > 32 and reg.lines[1].crop.max() > 0, "good_line_blank_next_to_degenerate", desc)
+    ctx.check(reg.lines[1].crop.shape == fresh.shape and np.array_equal(reg.lines[1].crop, fresh), "line_cropper_crop_after_a_degenerate_line_differs_from_a_fresh_croppers", desc)
     ctx.event("kind:" + case["kind"])
     ctx.nontrivial(repr(case))
 
